@@ -49,6 +49,9 @@ use crate::theta::serialization::V2_PREAMBLE_EMPTY;
 use crate::theta::serialization::V2_PREAMBLE_ESTIMATE;
 use crate::theta::serialization::V2_PREAMBLE_PRECISE;
 
+/// Upper limit for vector capacity reserved from an entry count read from a serialized image.
+const MAX_PREALLOCATED_ENTRIES: usize = 1 << 12;
+
 /// Mutable theta sketch for building from input data
 #[derive(Debug)]
 pub struct ThetaSketch {
@@ -592,7 +595,9 @@ impl CompactThetaSketch {
         num_entries: usize,
         theta: u64,
     ) -> Result<Vec<u64>, Error> {
-        let mut entries = Vec::with_capacity(num_entries);
+        // The count comes from the image: reserve at most a bounded amount up front and let the
+        // vector grow with the entries that are actually present.
+        let mut entries = Vec::with_capacity(num_entries.min(MAX_PREALLOCATED_ENTRIES));
         for _ in 0..num_entries {
             let hash = cursor.read_u64_le().map_err(insufficient_data("entries"))?;
             if hash == 0 || hash >= theta {
@@ -792,6 +797,12 @@ impl CompactThetaSketch {
         };
 
         // unpack num_entries
+        // The count is a u32 written in as few bytes as it needs.
+        if num_entries_bytes > 4 {
+            return Err(Error::deserial(format!(
+                "invalid number of entry-count bytes: expected at most 4, got {num_entries_bytes}"
+            )));
+        }
         let mut num_entries = 0usize;
         for i in 0..num_entries_bytes {
             let entry_count_byte = cursor
@@ -799,39 +810,48 @@ impl CompactThetaSketch {
                 .map_err(insufficient_data("num_entries_byte"))?;
             num_entries |= (entry_count_byte as usize) << ((i as usize) << 3);
         }
+        if num_entries > 0 && !(1..=63).contains(&entry_bits) {
+            return Err(Error::deserial(format!(
+                "invalid entry bit width: expected [1, 63], got {entry_bits}"
+            )));
+        }
+        if empty && num_entries > 0 {
+            return Err(Error::deserial("empty sketch image with entries"));
+        }
 
-        // unpack blocks of BLOCK_WIDTH deltas
+        // The count comes from the image: grow the vector with the blocks actually present.
+        let mut entries = Vec::with_capacity(num_entries.min(MAX_PREALLOCATED_ENTRIES));
         let mut i = 0usize;
-        let mut entries = vec![0u64; num_entries];
+        let mut block = vec![0u8; entry_bits as usize];
+        let mut deltas = [0u64; BLOCK_WIDTH];
         while i + BLOCK_WIDTH <= num_entries {
-            let mut block = vec![0u8; entry_bits as usize];
             cursor
                 .read_exact(&mut block)
                 .map_err(insufficient_data("delta_block"))?;
-            unpack_bits_block(&mut entries[i..i + BLOCK_WIDTH], &block, entry_bits);
+            unpack_bits_block(&mut deltas, &block, entry_bits);
+            entries.extend_from_slice(&deltas);
             i += BLOCK_WIDTH;
         }
 
-        // unpack extra deltas if fewer than 8 of them left
         if i < num_entries {
-            // read extra bytes
             let rem = num_entries - i;
             let bytes_needed = (rem * entry_bits as usize).div_ceil(8);
             let mut tail = vec![0u8; bytes_needed];
             cursor
                 .read_exact(&mut tail)
                 .map_err(insufficient_data("delta_tail"))?;
-
             let mut unpacker = BitUnpacker::new(&tail);
-            for slot in entries.iter_mut().take(num_entries).skip(i) {
-                *slot = unpacker.unpack_value(entry_bits);
+            for _ in 0..rem {
+                entries.push(unpacker.unpack_value(entry_bits));
             }
         }
 
-        // undo deltas
-        let mut previous = 0;
+        // Undo the delta encoding
+        let mut previous = 0u64;
         for e in &mut entries {
-            *e += previous;
+            *e = previous
+                .checked_add(*e)
+                .ok_or_else(|| Error::deserial("corrupted: delta-encoded hash overflows"))?;
             previous = *e;
             if *e == 0 || *e >= theta {
                 return Err(Error::deserial("corrupted: invalid retained hash value"));
